@@ -182,6 +182,9 @@ pub struct ExecOpts {
     /// (managed thread id, k): suspend that thread for good at its k-th scheduling point
     #[serde(default)]
     pub freeze: Option<(usize, u64)>,
+    /// the thread named by `freeze` is only held back until nobody else can make progress
+    #[serde(default)]
+    pub freeze_holds: bool,
     /// poll / start_send / poll_complete are bound to 400 + 60 * (spin counts) of their own
     /// scheduling points in a row without a change by another thread (C15: they never wait inside
     /// the call)
@@ -209,6 +212,7 @@ impl Default for ExecOpts {
             try_quiet: false,
             cyclic_schedule: false,
             freeze: None,
+            freeze_holds: false,
             fut_quiet: false,
         }
     }
@@ -1748,7 +1752,7 @@ fn run_scenario_inner(sc: &Scenario) -> Execution {
         schedule: sc.sched.clone(),
         // (freeze sweep: the threads that wait for the suspended one spin until this threshold in
         // every one of the ~10^5 executions; being stuck is no finding there, so it is kept short)
-        livelock: if sc.opts.freeze.is_some() {
+        livelock: if sc.opts.freeze.is_some() && !sc.opts.freeze_holds {
             1_500 + 40 * (sa + sy)
         } else if long_spins {
             600 * (sa + sy)
@@ -1760,6 +1764,7 @@ fn run_scenario_inner(sc: &Scenario) -> Execution {
         quarantine: sc.opts.quarantine,
         cyclic: sc.opts.cyclic_schedule,
         freeze: sc.opts.freeze,
+        freeze_holds: sc.opts.freeze_holds,
         fut_quiet_bound: if sc.opts.fut_quiet && sc.q.futures { 400 + 60 * (sa + sy) } else { 0 },
         // only where C18 is stated: plain handles on a busy or yielding queue
         try_quiet_bound: if sc.opts.try_quiet
